@@ -858,7 +858,7 @@ fn check_relative(w: &World, v: &Value, seq: u32, bad: &mut impl FnMut(String), 
 // ---------------------------------------------------------------- generator
 
 pub fn gen(rng: &mut Rng, tier: &str) -> Vec<Line> {
-  let nstates = if tier == "thorough" { 24 } else { 3 };
+  let nstates = if tier == "thorough" { 9 } else { 3 };
   let mut out = Vec::new();
   for s in 0..nstates {
     let recipe = Recipe {
@@ -872,7 +872,8 @@ pub fn gen(rng: &mut Rng, tier: &str) -> Vec<Line> {
     let mut reqs: Vec<Req> = Vec::new();
     let ne = t.entries.len() as i128;
     let sample: Vec<i128> = if tier == "thorough" {
-      (0..ne).collect()
+      // (case lines carry the whole tables: every 5th of the many children keeps the case file near 100 MB)
+      (0..ne).filter(|s| *s < 6 || *s > ne - 40 || s % 5 == 0).collect()
     } else {
       // every interesting inscription + a stride through the many children
       (0..ne).filter(|s| *s < 3 || *s > ne - 22 || s % 47 == 0).collect()
@@ -909,7 +910,7 @@ pub fn gen(rng: &mut Rng, tier: &str) -> Vec<Line> {
     }
     let mut by_count: Vec<(usize, u64)> = t.sats.iter().map(|x| (x.1.len(), x.0)).collect();
     by_count.sort_by(|a, b| b.cmp(a));
-    let mut sats: Vec<u64> = by_count.iter().map(|x| x.1).take(if tier == "thorough" { usize::MAX } else { 7 }).collect();
+    let mut sats: Vec<u64> = by_count.iter().map(|x| x.1).take(if tier == "thorough" { 40 } else { 7 }).collect();
     sats.push(1);
     sats.push(2_099_999_997_689_999);
     for sat in &sats {
